@@ -583,7 +583,7 @@ impl Vm {
 
   /// Pop the current exception handler and continue the unwind
   pub(super) unsafe fn op_continue_unwind(&mut self) -> ExecutionSignal {
-    self.fiber.pop_exception_handler();
+    self.fiber.continue_unwind();
     ExecutionSignal::RuntimeError
   }
 
